@@ -72,16 +72,17 @@ pub fn e1_jobs(prop: &str, tier: Tier) -> (Vec<E1Job>, usize) {
     let pf = |d| E1Job { profile: Profile::F, depth: d, alt_map: false };
     let pdj = |d| E1Job { profile: Profile::DJ, depth: d, alt_map: false };
     let pz = |m, d| E1Job { profile: Profile::Z { inner_max: m }, depth: d, alt_map: false };
+    let ped = |d| E1Job { profile: Profile::ED, depth: d, alt_map: false };
     let pn = |d| E1Job { profile: Profile::N, depth: d, alt_map: false };
     let pill = |d| E1Job { profile: Profile::Ill, depth: d, alt_map: false };
     let fam = if q { 64 } else { 400 };
     let jobs = match prop {
-        "C01" | "C05" => if q { vec![pa(3), E1Job { profile: Profile::A { times: vec![1, 3, 5] }, depth: 3, alt_map: true }, pbs(4), pc(6), pd(4), pdj(5), pe(1, true, 2), paj(4), pa15(4), E1Job { profile: Profile::S, depth: 2, alt_map: false }] } else { vec![pa15(4), pb(4), pc(8), pc3(9), paj(5), paj5(4), pd(5), pe(2, true, 2), pe(1, false, 3), pa(4), E1Job { profile: Profile::S, depth: 3, alt_map: false }] },
-        "C02" => if q { vec![pb(3), pbs(4), pbj(4), pd(5), pdj(4)] } else { vec![pb(4), pbs(5), pbj(5), pd(6), pdj(5)] },
-        "C03" => if q { vec![pd(5), pdj(5), pf(4), pe(1, true, 2)] } else { vec![pd(6), pdj(6), pf(5), pe(2, true, 2)] },
-        "C04" => if q { vec![pa1(3), pbs(3), pc(6), paj(4), pd(4), pe(1, true, 2), pf(4), E1Job { profile: Profile::S, depth: 2, alt_map: false }, pc3(8)] } else { vec![pa(3), pbs(4), pc(8), pd(5), pe(2, true, 2), pf(5)] },
-        "C07" => if q { vec![pe(1, true, 2), pe(2, true, 1), pe(1, false, 3)] } else { vec![pe(2, true, 2), pe(1, true, 3)] },
-        "C10" => if q { vec![pa(3), pb(3), pbs(4), pbj(4), pc(6), pd(6), pdj(5), paj(4), pa15(4)] } else { vec![pa(3), pa1(4), pb(4), pbs(5), pc(8), pd(7)] },
+        "C01" | "C05" => if q { vec![pa(3), E1Job { profile: Profile::A { times: vec![1, 3, 5] }, depth: 3, alt_map: true }, pbs(4), pc(6), pd(4), pdj(5), pe(1, true, 2), paj(4), pa15(4), ped(3), pill(4), E1Job { profile: Profile::S, depth: 2, alt_map: false }] } else { vec![pa15(4), pb(4), pc(8), pc3(9), paj(5), paj5(4), pd(5), pe(2, true, 2), pe(1, false, 3), pa(4), E1Job { profile: Profile::S, depth: 3, alt_map: false }] },
+        "C02" => if q { vec![pb(3), pbs(4), pbj(4), pd(5), pdj(4), pill(4)] } else { vec![pb(4), pbs(5), pbj(5), pd(6), pdj(5)] },
+        "C03" => if q { vec![pd(5), pdj(5), pf(4), pe(1, true, 2), pill(4)] } else { vec![pd(6), pdj(6), pf(5), pe(2, true, 2)] },
+        "C04" => if q { vec![pa1(3), pbs(3), pc(6), paj(4), pd(4), pe(1, true, 2), pf(4), pill(4), E1Job { profile: Profile::S, depth: 2, alt_map: false }, pc3(8)] } else { vec![pa(3), pbs(4), pc(8), pd(5), pe(2, true, 2), pf(5)] },
+        "C07" => if q { vec![pe(1, true, 2), pe(2, true, 1), pe(1, false, 3), ped(4)] } else { vec![pe(2, true, 2), pe(1, true, 3), ped(5)] },
+        "C10" => if q { vec![pa(3), pb(3), pbs(4), pbj(4), pc(6), pd(6), pdj(5), paj(4), pa15(4), pill(4)] } else { vec![pa(3), pa1(4), pb(4), pbs(5), pc(8), pd(7)] },
         "C12" => if q { vec![pf(4)] } else { vec![pf(6)] },
         "C13" => if q { vec![pf(5), pe(1, true, 2), pe(2, true, 1), paj(3), E1Job { profile: Profile::S, depth: 3, alt_map: false }] } else { vec![pf(5), pe(2, true, 2), E1Job { profile: Profile::S, depth: 3, alt_map: false }] },
         "C04x" => vec![],
@@ -167,6 +168,11 @@ pub fn run_e1(prop: &str, tier: Tier, budget: Duration, frag: &mut Frag) {
         let remaining = budget.saturating_sub(start.elapsed());
         let share = remaining / (njobs - k) as u32;
         let t0 = Instant::now();
+        // sequences of the ill-formed-call profile go on after a (rightly) rejected call: it must have had no effect
+        let mut props = props;
+        if matches!(job.profile, Profile::Ill) {
+            props.continue_after_reject = true;
+        }
         let run = E1Run { resmap: if job.alt_map { vec![4, 1, 5, 3, 0, 2] } else { crate::hsys::Ctx::identity_map() }, c19_maps: if prop == "C19" { if tier == Tier::Quick { 12 } else { 360 } } else { 0 }, profile: &job.profile, depth: job.depth, props, need, deadline: t0 + share, threads: threads() };
         let r = run_profile(&run);
         let wall = t0.elapsed().as_secs_f64();
@@ -236,6 +242,8 @@ pub fn confirm(f: &crate::report::Finding) -> Option<bool> {
             let o = crate::obs::observe(&ops, &crate::hsys::Ctx::identity_map(), need);
             let mut p = Props::from_list(&[f.prop.as_str()]);
             p.c10_all = true;
+            // the finding may stem from a sequence that goes on after a (rightly) rejected call
+            p.continue_after_reject = true;
             let vs = crate::inv::check_state(&p, &ops, &info, &o, false);
             if f.prop == "C19" || f.sig == "redundant-barrier-changes-plan" {
                 return None;
@@ -457,6 +465,22 @@ pub fn e2_jobs(prop: &str, tier: Tier) -> Vec<E2Job> {
         _ => {}
     }
     if prop == "C04" {
+        // a system panics in dispatch 1 (caught by the caller); dispatch 2 and 3 of the same dispatcher run everything once
+        let mut scs = Vec::new();
+        for p in core(vec![3], 2).into_iter().chain(eb(1)).chain(tl(2)) {
+            let info = PlanInfo::of(&p);
+            for n in &info.nodes {
+                if n.kind == crate::spec::Kind::Batch {
+                    continue;
+                }
+                for mode in [Mode::Dispatch, Mode::Par, Mode::Seq] {
+                    let mut s = Scenario::plain(p.clone(), mode, 3);
+                    s.panics = vec![(n.id, false)];
+                    scs.push(s);
+                }
+            }
+        }
+        jobs.push(E2Job { label: "a system panics in the first of three dispatches (caught): the later dispatches run every system once".into(), scenarios: scs, bounds: b(if q { 0 } else { 1 }), delay: false });
         // pool-size sweep: stages wider than / equal to / narrower than the pool
         let mut scs = Vec::new();
         for w in [2usize, 3, 5, 7] {
@@ -537,7 +561,12 @@ pub fn e2_jobs(prop: &str, tier: Tier) -> Vec<E2Job> {
                         for m in modes {
                             let mut s = Scenario::plain(p.clone(), *m, 2);
                             s.panics = c.clone();
-                            v.push(s);
+                            v.push(s.clone());
+                            // the same panic raised at the end of run, after the system has written through its guards
+                            if c.len() == 1 && !c[0].1 && info.nodes[c[0].0].kind != crate::spec::Kind::Batch {
+                                s.panic_late = true;
+                                v.push(s);
+                            }
                         }
                     }
                 }
@@ -610,6 +639,38 @@ pub fn e2_jobs(prop: &str, tier: Tier) -> Vec<E2Job> {
                     }
                 }
                 jobs.push(E2Job { label: "thread-local plans with a panicking ordinary system".into(), scenarios: scs, bounds: b(1), delay: false });
+                // a thread-local system panics (caught): the next dispatch still runs every thread-local system, in order
+                let mut scs = Vec::new();
+                for p in tl(2).into_iter().chain(tl(3).into_iter().filter(|p| p.len() == 3).take(200)) {
+                    let info = PlanInfo::of(&p);
+                    for n in &info.nodes {
+                        if n.kind == crate::spec::Kind::Tl && n.parent.is_none() {
+                            for at_fetch in [false, true] {
+                                let mut s = Scenario::plain(p.clone(), Mode::Dispatch, 2);
+                                s.panics = vec![(n.id, at_fetch)];
+                                scs.push(s);
+                            }
+                        }
+                    }
+                }
+                jobs.push(E2Job { label: "thread-local plans with a panicking thread-local system, then a clean dispatch".into(), scenarios: scs, bounds: b(1), delay: false });
+            }
+            {
+                // async dispatcher: whatever is called between dispatch and wait (polling, the other accessors, a
+                // second dispatch), the wait that follows a dispatch runs every thread-local system once
+                let mut scs = Vec::new();
+                for p in tl(2) {
+                    let info = PlanInfo::of(&p);
+                    if !info.nodes.iter().any(|n| n.kind == crate::spec::Kind::Tl && n.parent.is_none()) {
+                        continue;
+                    }
+                    for script in ["DW", "DRW", "DRRW", "DXW", "DOW", "DMW", "DSW", "DWW", "DWDW", "DDW", "DXDW", "DRDRW", "DWRW"] {
+                        let mut sc = Scenario::plain(p.clone(), Mode::Async, 0);
+                        sc.script = Some(script.to_string());
+                        scs.push(sc);
+                    }
+                }
+                jobs.push(E2Job { label: "async scripts over thread-local plans (<= 2 ops): polling / accessors / second dispatch between dispatch and wait".into(), scenarios: scs, bounds: b(if q { 1 } else { 2 }), delay: false });
             }
             jobs.push(E2Job { label: "thread-local plans, 3 ops".into(), scenarios: scen(&tl(3).into_iter().filter(|p| p.len() == 3).collect::<Vec<_>>(), &[Mode::Dispatch, Mode::Async], &[1]), bounds: b(if q { 1 } else { 2 }), delay: false });
             if !q {
@@ -740,8 +801,14 @@ pub fn run_scenarios(scs: &[Scenario], mon: Mon, opts: &ExploreOpts) -> MultiRes
 // C11: side-by-side systems really run in parallel
 // ---------------------------------------------------------------------------
 
+std::thread_local! {
+    /// running-time hint of the systems of `wide_stage` (C11 sweeps it: code may treat "cheap" stages differently)
+    static WIDE_HINT: std::cell::Cell<u8> = const { std::cell::Cell::new(3) };
+}
+
 fn wide_stage(w: usize) -> Vec<Op> {
-    (0..w).map(|i| Op::Sys(crate::spec::SysSpec { name: format!("s{}", i), reads: vec![], writes: vec![], time: 3, deps: vec![] })).collect()
+    let t = WIDE_HINT.with(|h| h.get());
+    (0..w).map(|i| Op::Sys(crate::spec::SysSpec { name: format!("s{}", i), reads: vec![], writes: vec![], time: t, deps: vec![] })).collect()
 }
 
 fn c11_scenarios(w: usize, n: usize) -> Vec<(String, Scenario)> {
@@ -786,6 +853,25 @@ fn c11_scenarios(w: usize, n: usize) -> Vec<(String, Scenario)> {
         s.foreign_pool = Some(1);
         s.rendezvous = Some((ids.clone(), w as u16));
         v.push((format!("dispatch from a worker of a foreign 1-thread pool / width {} / own pool of {} threads", w, n), s));
+    }
+    // the user-supplied pool handed over late: after the registrations (the batch's sub-dispatcher has been
+    // built by then and the default pool is one thread wide), or after a one-thread decoy pool
+    for placement in [1u8, 2] {
+        for batch in [false, true] {
+            let (ops, rv): (Vec<Op>, Vec<usize>) = if batch {
+                (vec![Op::Batch(crate::spec::BatchSpec { name: "b".into(), deps: vec![], ctrl: crate::spec::CtrlData::Unit, times: 1, multi: false, fetch_data: false, inner: wide_stage(w) })], (1..=w).collect())
+            } else {
+                (wide_stage(w), ids.clone())
+            };
+            for mode in [Mode::Dispatch, Mode::Async] {
+                let mut s = Scenario::plain(ops.clone(), mode, 2);
+                s.user_pool = Some(n);
+                s.default_threads = Some(1);
+                s.pool_placement = placement;
+                s.rendezvous = Some((rv.clone(), w as u16));
+                v.push((format!("user pool handed over late (placement {}) / width {} / {} threads", placement, w, n), s));
+            }
+        }
     }
     // a narrow batch registered (and therefore built) first, then the wide stage: behind a barrier, beside the
     // batch, and as the inner stage of a second batch; the pool (default or user-supplied) is shared by all
@@ -846,6 +932,8 @@ pub fn run_c11(tier: Tier, budget: Duration, frag: &mut Frag) {
     } else {
         cfgs.extend([(3, 2, false), (4, 1, false), (4, 3, true), (5, 2, true), (6, 2, true), (8, 2, true), (12, 1, true), (16, 1, true)]);
     }
+    // cheap configurations first (delay-bounded ones, then by width): what they do not use is passed on
+    cfgs.sort_by_key(|(w, b, delay)| (!*delay && *w >= 3, *w as u32 * (*b + 1)));
     let mut neg_deadlocks = 0u64;
     let mut neg_runs = 0u64;
     let ncfg = cfgs.len() as u32;
@@ -856,7 +944,15 @@ pub fn run_c11(tier: Tier, budget: Duration, frag: &mut Frag) {
         for (ni, n) in [w, w + 1].into_iter().enumerate() {
             // the second pool size gets at least the second half of the configuration's share
             let deadline = if ni == 0 { Instant::now() + deadline.saturating_duration_since(Instant::now()) / 2 } else { deadline };
-            let scs: Vec<Scenario> = c11_scenarios(w, n).into_iter().map(|x| x.1).collect();
+            let mut scs: Vec<Scenario> = c11_scenarios(w, n).into_iter().map(|x| x.1).collect();
+            if w <= 4 && ni == 0 {
+                // the same stages made of systems that call themselves very cheap / very expensive
+                for hint in [1u8, 5] {
+                    WIDE_HINT.with(|h| h.set(hint));
+                    scs.extend(c11_scenarios(w, n).into_iter().map(|x| x.1).filter(|s| s.script.is_none()));
+                    WIDE_HINT.with(|h| h.set(3));
+                }
+            }
             let opts = ExploreOpts { bounds: (0..=bound).collect(), all_points: false, deadline, max_execs: u64::MAX, keep_traces: 1, deadlock_prop: Some("C11"), delay_mode: delay };
             let t0 = Instant::now();
             let r = run_scenarios(&scs, mon, &opts);
@@ -1002,6 +1098,44 @@ pub fn run_c15(tier: Tier, budget: Duration, frag: &mut Frag) {
         let opts = ExploreOpts { bounds: vec![0, 1], all_points: false, deadline: t0 + budget / 4, max_execs: u64::MAX, keep_traces: 0, deadlock_prop: Some("EXPECTED-BLOCKED-CALLER"), delay_mode: false };
         let r = run_scenarios(&scs, Mon::default(), &opts);
         frag.parts.push(json!({"engine":"E2 schedmc","scenarios":"a background system panics whenever it runs: 9 scripts x every system of 6 plans; a call may unwind or block, it must not return as if the dispatch had completed","n_scenarios":scs.len(),"scenarios_completed":r.completed,"schedules":r.executions,"states":r.nodes,"transitions":r.transitions,"deadlocks":r.deadlocks,"cap_hit":r.capped,"wall_s":t0.elapsed().as_secs_f64()}));
+        frag.states += r.nodes;
+        frag.transitions += r.transitions;
+        frag.exhaustive &= !r.capped;
+        frag.col.merge(r.col);
+    }
+    // plan shapes: every sequence of 2..4|5 stages, each single-group or two groups wide (code that treats runs of
+    // single-group stages, or the stage behind them, differently)
+    {
+        let mut scs = Vec::new();
+        let max_stages = if q { 4 } else { 5 };
+        for nst in 2..=max_stages {
+            for mask in 0..(1u32 << nst) {
+                // stage k is wide iff bit k of mask; consecutive stages are separated by a writer/reader alternation on A
+                let mut ops: Vec<Op> = Vec::new();
+                for k in 0..nst {
+                    let wide = mask & (1 << k) != 0;
+                    if wide {
+                        // two readers of A side by side; forced behind the previous stage by a barrier
+                        ops.push(sy(&format!("r{}a", k), &[0], &[], &[]));
+                        ops.push(sy(&format!("r{}b", k), &[0], &[], &[]));
+                    } else {
+                        ops.push(sy(&format!("w{}", k), &[], &[0], &[]));
+                    }
+                    if k + 1 < nst {
+                        ops.push(Op::Barrier);
+                    }
+                }
+                for script in ["DW", "DWDW", "DX", "DDW"] {
+                    let mut sc = Scenario::plain(ops.clone(), Mode::Async, 0);
+                    sc.script = Some(script.to_string());
+                    scs.push(sc);
+                }
+            }
+        }
+        let t0 = Instant::now();
+        let opts = ExploreOpts { bounds: vec![0, 1], all_points: false, deadline: t0 + budget / 5, max_execs: u64::MAX, keep_traces: 0, deadlock_prop: Some("C15"), delay_mode: true };
+        let r = run_scenarios(&scs, Mon::default(), &opts);
+        frag.parts.push(json!({"engine":"E2 schedmc","scenarios":format!("plan shapes: every sequence of 2..{} stages, each one group or two groups wide; scripts DW, DWDW, DX, DDW", max_stages),"n_scenarios":scs.len(),"scenarios_completed":r.completed,"bound_kind":"delay (all deviations)","bounds":[0,1],"schedules":r.executions,"states":r.nodes,"transitions":r.transitions,"deadlocks":r.deadlocks,"cap_hit":r.capped,"wall_s":t0.elapsed().as_secs_f64()}));
         frag.states += r.nodes;
         frag.transitions += r.transitions;
         frag.exhaustive &= !r.capped;
